@@ -633,10 +633,10 @@ pub fn threshold_histories(rep: &mut Report, shard: usize, shards: usize, san: b
 		v
 	};
 	// (1) many distinct keys
-	let sizes: &[usize] = if cfg!(miri) { &[15] } else if san { &[14, 15, 113] } else { &[3, 7, 8, 14, 15, 16, 28, 29, 56, 57, 112, 113, 120, 224, 225, 300, 448, 449] };
+	let sizes: &[usize] = if cfg!(miri) { &[15] } else if san { &[14, 15, 113] } else { &[3, 7, 8, 14, 15, 16, 28, 29, 31, 32, 33, 34, 56, 57, 63, 64, 65, 112, 113, 120, 224, 225, 300, 448, 449] };
 	for &n in sizes {
 		let base: Vec<Op> = (0..n).map(|j| Op::Push(format!("k{}", j))).collect();
-		let tail_keys = ["k0".to_string(), format!("k{}", n / 2), "zz".to_string()];
+		let tail_keys = ["k0".to_string(), format!("k{}", n - 1), "zz".to_string()];
 		let mut tails: Vec<Vec<usize>> = vec![vec![]];
 		let mut layer: Vec<Vec<usize>> = vec![vec![]];
 		for _ in 0..(if cfg!(miri) { 0 } else if san { 2 } else { 3 }) {
